@@ -164,6 +164,11 @@ def _box(tier):
             if s >= 1:
                 for c8 in ([8, 8, 16, 16], [8, 40, 16, 16], [24, 8, 0, 0]):
                     yield {"cls": "Revolve", "n": n, "s": s, "c8": c8, "passes": 1}
+    # extreme cost ratios (ub/uf and uf/ub of 2**30): relative tolerances, lost low-order bits
+    for n in (4, 7, 12, 20, 30, 48, 64):
+        for s in (2, 3, 5):
+            yield {"cls": "Revolve", "n": n, "s": s, "c8": [1, 1 << 30, 16, 16], "passes": 1}
+            yield {"cls": "Revolve", "n": n, "s": s, "c8": [1 << 30, 1, 16, 16], "passes": 1}
     # the same Revolve problems in other cost units (x 2**40, x 2**-40: exact rescalings)
     for n in (4, 7, 12, 20, 30, 48):
         for s in (1, 2, 3, 5):
